@@ -188,6 +188,23 @@ func LongHarness(mode Mode) mc.Harness {
 						fam{LongCfg{Beta: b, N: 14, Fill: "zigzag", Drain: "inside", Depth: mode.Depth, Set: mode.Set}, 2})
 				}
 			}
+			// Deep default histories (no deviation): strict betas need several
+			// hundred keys before a wrong scapegoat choice shows, betas close to
+			// 1000 need about 1/(1-alpha) keys before the bound binds at all.
+			deepBetas := mc.Pick(r, []int{0, 1, 3, 10, 30, 100, 981, 985, 990}, []int{0, 1, 2, 3, 5, 10, 20, 40, 60, 100, 155, 970, 981, 985, 990, 995})
+			for _, b := range deepBetas {
+				for _, p := range [][2]string{{"asc", "asc"}, {"desc", "desc"}, {"zigzag", "inside"}, {"inside", "zigzag"}} {
+					n := mc.Pick(r, 1100, 6000)
+					if b >= 970 {
+						n = mc.Pick(r, 1700, 6000)
+					}
+					fams = append(fams, fam{LongCfg{Beta: b, N: n, Fill: p[0], Drain: p[1], Depth: mode.Depth, Set: mode.Set}, 0})
+				}
+			}
+			if !r.Quick() && mode.Depth {
+				fams = append(fams, fam{LongCfg{Beta: 999, N: 24000, Fill: "asc", Drain: "asc", Depth: true}, 0},
+					fam{LongCfg{Beta: 999, N: 24000, Fill: "desc", Drain: "desc", Depth: true}, 0})
+			}
 			var execs, steps int64
 			var byDev [4]int64
 			minSlack := int64(1 << 30)
@@ -195,8 +212,6 @@ func LongHarness(mode Mode) mc.Harness {
 			mc.ParallelFor(len(fams), r.Workers, func(i int) {
 				f := fams[i]
 				st := &LongStats{MinSlack: 1 << 30}
-				var stmu sync.Mutex
-				_ = stmu
 				d := &mc.DFS{Name: name, Config: f.cfg, MaxDev: f.dev, Workers: 1, Body: LongBody(f.cfg, st)}
 				res := d.Run(r)
 				atomic.AddInt64(&execs, res.Executions)
@@ -216,6 +231,7 @@ func LongHarness(mode Mode) mc.Harness {
 			r.Bound("betas", betas)
 			r.Bound("fill_drain_orders", pairs)
 			r.Bound("families", len(fams))
+			r.Bound("deep_histories", fmt.Sprintf("betas %v, N=%s, four fill/drain orders, no deviation", deepBetas, mc.Pick(r, "1100 (1700 for beta >= 970)", "6000")))
 			r.Bound("executions_by_deviations", byDev[:])
 			if mode.Depth {
 				r.Bound("min_slack_allowed_minus_actual_depth", minSlack)
